@@ -387,6 +387,15 @@ package httpserver
 //@   at call github.com/tmpim/casket/caskettls.MakeTLSConfig assert [every_site_of_the_group_is_checked] len(arg0) == len(group) && forall(k, 0, len(group), arg0[k] == group[k].TLS)
 //@   loop 1 invariant 0 <= #i && #i <= len(group) && len(tlsConfigs) == #i && forall(k, 0, #i, tlsConfigs[k] == group[k].TLS)
 
+//@ unit vhost_key frames=on props=C01 filter=`httpserver\.Address\)\.VHost$`
+//@ // The key a site is inserted under in the vhost trie is its address as written minus the scheme and its "://", however
+//@ // the scheme is spelled (HTTP://Example.com is keyed Example.com; the trie lower-cases hosts itself).
+//@ use @verif/specs/stdlib.spec:stdlib
+//@ define sep() int = strings.Index(a.Original, "://")
+//@ func (Address).VHost
+//@   ensures [scheme_and_separator_dropped] sep() > -1 ==> result == a.Original[sep()+3:]
+//@   ensures [no_scheme_means_whole_address] sep() == -1 ==> result == a.Original
+
 //@ unit split_host_path frames=on props=C01 filter=`vhostTrie\)\.splitHostPath$`
 //@ // "host matching ignores letter case and port": the key both Insert and Match look up is the lower-cased text before the
 //@ // first slash, with the port removed exactly when net.SplitHostPort accepts it as host:port (hostOf/hasPort below ARE
